@@ -189,6 +189,12 @@ ROUND10 = {
  "C19": " Good replies that list nobody.",
  "C20": " Real-socket run under the paused clock: a peer that floods requests and then neither reads nor writes.",
 }
+ROUND12 = {
+ "C03": " Long file lists (1500; thorough 300..4000 files) under a descriptor limit of 1024.",
+ "C06": " Flood runs over loopback TCP: 400 000 Have frames at once (plain, behind an oversized header, behind a maximal frame); undecoded bytes held after every frame never above one maximal frame.",
+ "C19": " Real-HTTP runs: a loopback tracker answers through reqwest with Content-Length, chunked, close-delimited and split replies.",
+ "C20": " Silent non-reading peer with only 9-byte messages to write (real socket with 4 KiB buffers, paused clock).",
+}
 ROUND11 = {
  "C02": " One real-socket run with dials that neither succeed nor fail: the seeder listed in front of eleven hosts with a full listen queue that accept-and-close after 6 s; the download must complete.",
  "C11": " Held-back flush run: the real connection task over a TcpStream with 4 KiB buffers, 3000 / 6000 announcements held back, the peer reads only after its Unchoke and must decode exactly Have 0..n.",
@@ -206,7 +212,7 @@ def main():
     checks = []
     for pid in sorted(CHECKS):
         level, technique, engine, text, note, ref = CHECKS[pid]
-        text = text + ROUND3.get(pid, "") + ROUND4.get(pid, "") + ROUND5.get(pid, "") + ROUND5B.get(pid, "") + ROUND6.get(pid, "") + ROUND7.get(pid, "") + ROUND8.get(pid, "") + ROUND9.get(pid, "") + ROUND10.get(pid, "") + ROUND11.get(pid, "")
+        text = text + ROUND3.get(pid, "") + ROUND4.get(pid, "") + ROUND5.get(pid, "") + ROUND5B.get(pid, "") + ROUND6.get(pid, "") + ROUND7.get(pid, "") + ROUND8.get(pid, "") + ROUND9.get(pid, "") + ROUND10.get(pid, "") + ROUND11.get(pid, "") + ROUND12.get(pid, "")
         checks.append({
             "property_id": pid,
             "quick_cmd": "./check %s --tier quick" % pid,
